@@ -243,7 +243,7 @@ def run(ctx):
         knobs = []
         nsh = 8
         for i in range(nsh):
-            jobs.append(("exh%d" % i, ["exh", seed, i, nsh, 3, 400, 1] + knobs))
+            jobs.append(("exh%d" % i, ["exh", seed, i, nsh, 4, 400, 1] + knobs))
         for name, sc, cnt, m in (("rand1", 1, 160, 9), ("rand5", 5, 130, 9), ("rand13", 13, 90, 5),
                                  ("rand3", 3, 90, 9), ("rand7", 7, 90, 6)):
             jobs.append((name, ["rand", seed + sc, cnt, m, sc] + knobs))
@@ -353,7 +353,7 @@ def run(ctx):
         "type_changes": cov.out_types,
         "named_deviation_hits": devs,
         "exhaustive": "every surface of every type over the small parameter ranges of vsurf.cc exhaustive_family "
-                      "(quick: every 3rd, general quadrics every 400th; thorough: all, general quadrics every 20th); "
+                      "(quick: every 4th, general quadrics every 400th; thorough: all, general quadrics every 20th); "
                       "points/directions/transforms seeded samples of the lattice cube, the 26+12 directions, the 48 "
                       "signed permutations x translations, Pythagorean rotations (den 3, 5, 7, 13)",
     })
